@@ -17,6 +17,7 @@ import FwdVerif.Driver.C15
 import FwdVerif.Driver.H2
 import FwdVerif.Driver.C13
 import FwdVerif.Driver.C12
+import FwdVerif.Driver.C11
 
 open FwdVerif
 
@@ -38,6 +39,7 @@ def dispatch (line : String) : String :=
   | "C10" :: rest => H2.handle rest
   | "C13" :: rest => C13.handle rest
   | "C12" :: rest => C12.handle rest
+  | "C11" :: rest => C11.handle rest
   | ["ping"] => "pong"
   | _ => "bad-op"
 
